@@ -125,7 +125,8 @@ def run_witness(prop, tier, seed, hints):
     if not os.path.exists(runner):
         return None
     if os.environ.get('VERIF_WITNESS_FLAVOUR') is not None:
-        flavours = [os.environ['VERIF_WITNESS_FLAVOUR']]
+        # a configuration may name several flavours ("stable,nightly")
+        flavours = [('' if f_ == 'stable' else f_) for f_ in os.environ['VERIF_WITNESS_FLAVOUR'].split(',')]
     else:
         flavours = (load_props_cfg().get(prop) or {}).get('witness_flavours') or ['']
     last = None
@@ -323,7 +324,18 @@ def _unit_meta(u):
     typ, trait = None, None
     for sg in reversed(segs[:-1]):
         if sg.startswith('impl'):
-            h = re.sub(r'^impl\s*(<[^>]*(?:<[^>]*>[^>]*)*>)?\s*', '', sg)
+            h = sg[4:].lstrip()
+            if h.startswith('<'):
+                # strip the impl's generic parameter list (angle brackets nest: `impl<A: Lockable<A>> Trait for T`)
+                depth = 0
+                for k_, ch in enumerate(h):
+                    if ch == '<':
+                        depth += 1
+                    elif ch == '>' and not (k_ > 0 and h[k_ - 1] == '-'):
+                        depth -= 1
+                        if depth == 0:
+                            h = h[k_ + 1:].lstrip()
+                            break
             if ' for ' in h:
                 trait, h = h.split(' for ', 1)
                 trait = re.sub(r'<.*$', '', trait.strip()).split('::')[-1].strip()
